@@ -9,6 +9,7 @@
 import PolyVerif.Model.GraphIO
 import PolyVerif.Lemmas.GraphIO
 import PolyVerif.Lemmas.DepOrder
+import PolyVerif.Gen.DepOrderFacts
 
 namespace PolyVerif
 namespace C12
@@ -26,6 +27,22 @@ variable {V J : Type}
 theorem edit_history_wf {E : Env V J} (hE : EnvOK E) (h : Hdr) (ops : List (Op J)) :
     WF E (run E (Graph.init h) ops) :=
   run_wf hE ops (init_wf h)
+
+/-- the bounded id search of the model never exhausts its fuel: among `len + 1` candidate names `Node-k` one is free
+    (pigeonhole; `Node-k` is injective in k).  So the model's `fuel` error never occurs and `edit_history_wf` is not
+    true of `create` by way of the failing-op no-op. -/
+theorem firstFree_sufficient (ids : List Id) (k : Nat) : ∃ id, firstFree ids (ids.length + 1) k = some id :=
+  firstFree_sufficient_aux k (Nat.lt_succ_self _)
+
+/-- CreateNode of a registered type always succeeds, and the new node gets a fresh, non-empty id -/
+theorem create_succeeds {E : Env V J} (g : Graph V) {ty : TyName} {T : NodeType} (hT : E.types ty = some T) :
+    ∃ id, id ∉ g.ids ∧ id ≠ "" ∧
+      step E g (.create ty) = .ok { g with nodes := g.nodes ++ [emptyNode id ty (freshParam E ty T)] } := by
+  have hlen : g.ids.length = g.nodes.length := by simp [Graph.ids]
+  obtain ⟨id, hid⟩ := firstFree_sufficient g.ids g.nodes.length
+  rw [hlen] at hid
+  obtain ⟨h1, h2⟩ := firstFree_fresh hid
+  exact ⟨id, h1, h2, by simp [step, hT, hid]⟩
 
 /-- the same from any well-formed start graph (an application that defines its graph in code — `App.Files` —
     starts from that graph instead of the empty one; per-node defaults are then arbitrary) -/
@@ -75,7 +92,27 @@ theorem encode_idempotent {E : Env V J} (hE : EnvOK E) {cmp : Name → Name → 
   intro n _
   exact encodeNode_norm E cmp n
 
-/-- the order in which Go ranges over its node map does not matter: encoding is per node -/
+/-- Whatever order Go's `range i.nodeIDs` presents the nodes in at save time (the model's list order of a graph is that
+    order; it also fixes the order of the payloads in the binary buffer): the save of ANY permutation `g'` of the graph
+    reloads to `g'.norm`, whose nodes are a permutation of `g.norm`'s — the same set of identical nodes.
+    (On the load side there is nothing to permute: `decodeNode` is a function of the file, the entry and the payloads
+    that FOLLOW the entry's own in the buffer, not of the order in which ApplyAppSchema visits the entries.) -/
+theorem decode_encode_perm {E : Env V J} (hE : EnvOK E) {cmp : Name → Name → Bool} {g g' : Graph V} (hw : WF E g)
+    (hperm : g'.nodes.Perm g.nodes) (hprods : g'.prods = g.prods)
+    (hc : ∀ n ∈ g.nodes, ∀ T, E.types n.ty = some T → CmpOK cmp T n) (hf : FilePayloadLast E g) :
+    decode E Hdr.empty (encode E cmp g') = .ok g'.norm ∧ g'.norm.nodes.Perm g.norm.nodes := by
+  have keep : ∀ s ∈ g.nodes, ∃ s' ∈ g'.nodes, s'.id = s.id ∧ s'.ty = s.ty :=
+    fun s hs => ⟨s, hperm.mem_iff.mpr hs, rfl, rfl⟩
+  have hw' : WF E g' := by
+    refine ⟨(hperm.map _).nodup_iff.mpr hw.nodup, ?_, hprods ▸ hw.prodsNodup, ?_⟩
+    · intro n hn; exact (hw.nodes n (hperm.mem_iff.mp hn)).mono keep
+    · intro kv hkv; exact (hw.prods kv (hprods ▸ hkv)).mono keep
+  have hf' : FilePayloadLast E g' := by
+    unfold FilePayloadLast at hf ⊢
+    rw [(hperm.filterMap _).length_eq]; exact hf
+  exact ⟨decode_encode hE hw' (fun n hn => hc n (hperm.mem_iff.mp hn)) hf', hperm.map _⟩
+
+/-- helper: encoding is per node, so permuting the nodes permutes the entries -/
 theorem encode_nodes_perm (E : Env V J) (cmp : Name → Name → Bool) {g g' : Graph V} (h : g.nodes.Perm g'.nodes) :
     (encode E cmp g).nodes.Perm (encode E cmp g').nodes :=
   h.map _
@@ -90,6 +127,28 @@ theorem sorted_unique {E : Env V J} (hE : EnvOK E) {ty : TyName} {T : NodeType} 
   sorted_unique_aux hS hN hperm hsorted
 
 /-! ### the comparator -/
+
+/-- the skeleton of `dependencyNameLess` and of its call site that `depLess` / `encodeNode` transcribe:
+    split both names at the LAST dot (`splitLast`), guard = both dots found and `EqualFold` of the prefixes
+    (`lower ap = lower bp`), `strconv.Atoi` of both suffixes (`atoi`), both errors nil (`some x, some y`), numeric `<`,
+    else `ToLower(a) < ToLower(b)` (`strLt (lower a) (lower b)`); `sort.Slice` of the dependencies by that on `.Name` -/
+def expectedSkeleton : List String := [
+  "split-a: v0 := strings.LastIndex(p0, \".\")",
+  "split-b: v1 := strings.LastIndex(p1, \".\")",
+  "same-port-guard: v0 != -1",
+  "same-port-guard: v1 != -1",
+  "same-port-guard: strings.EqualFold(p0[:v0], p1[:v1])",
+  "parse-a: v2, v3 := strconv.Atoi(p0[v0+1:])",
+  "parse-b: v4, v5 := strconv.Atoi(p1[v1+1:])",
+  "numeric-guard: v3 == nil",
+  "numeric-guard: v5 == nil",
+  "numeric-result: v2 < v4",
+  "fallback-result: strings.ToLower(p0) < strings.ToLower(p1)",
+  "sort-call: sort.Slice(nodeInstance.Dependencies, func(i, j int) bool { return dependencyNameLess(nodeInstance.Dependencies[i].Name, nodeInstance.Dependencies[j].Name) })"]
+
+/-- REGENERATED OBLIGATION (engine F, `go/facts` mode `c12.cmp`): the comparator in generator/graph/instance.go, as it is
+    in the tree being checked, has exactly the statement / call skeleton the model transcribes -/
+theorem dep_order_skeleton : Gen.depOrderFacts = expectedSkeleton := by decide +kernel
 
 theorem name_code_aux {E : Env V J} (_hE : EnvOK E) {ty : TyName} {T : NodeType} (_hT : E.types ty = some T)
     {n : Node V} (hlen : ∀ p, (n.arrs p).length ≤ 2 ^ 63) {x : Name} (hx : x ∈ (depsOf T n).map (·.name)) :
